@@ -401,6 +401,17 @@ func handleStream(svr interface{}, serviceName string, desc *grpc.StreamDesc, st
 		str := &serverStream{r: r, w: w, respStream: desc.ClientStreams, codec: codec}
 		sts := internal.ServerTransportStream{Name: info.FullMethod, Stream: str}
 		str.ctx = grpc.NewContextWithServerTransportStream(ctx, &sts)
+		// however the handler ends - also by a panic, which net/http recovers -
+		// its stream is finished (see below)
+		finished := false
+		defer func() {
+			if !finished {
+				str.wmu.Lock()
+				str.finished = true
+				atomic.StoreInt32(&str.readFinished, 1)
+				str.wmu.Unlock()
+			}
+		}()
 		if streamInt != nil {
 			// per-RPC information: an interceptor may modify what it is
 			// given, which must not reach other calls
@@ -421,6 +432,7 @@ func handleStream(svr interface{}, serviceName string, desc *grpc.StreamDesc, st
 		defer str.wmu.Unlock()
 		str.finished = true
 		atomic.StoreInt32(&str.readFinished, 1)
+		finished = true
 
 		if str.writeFailed {
 			// nothing else we can do
